@@ -909,6 +909,9 @@ func diffDirs(a, b string) []string {
 // ResultCacheHits counts the shards whose exploration results were reused from an identical earlier run.
 var ResultCacheHits atomic.Int64
 
+// TransientIncidents counts worker stalls / crashes that did not reproduce in two isolated runs.
+var TransientIncidents atomic.Int64
+
 type RunOpts struct {
 	D, F, H, Cap int
 	Inject       bool
@@ -1003,8 +1006,9 @@ func RunWorker(b *Built, o RunOpts) ([]harness.Result, error) {
 		}
 		// confirm twice in isolation
 		confirmed := true
+		var clean []harness.Result // results of isolated runs that completed normally
 		for k := 0; k < 2; k++ {
-			_, e2, c2 := run(b.Dir, 3*time.Minute, worker, append(o.args(), "-only", lastID)...)
+			o2, e2, c2 := run(b.Dir, 10*time.Minute, worker, append(o.args(), "-only", lastID)...)
 			k2 := "crash"
 			if c2 == 3 || c2 == 124 {
 				k2 = "hang"
@@ -1012,6 +1016,25 @@ func RunWorker(b *Built, o RunOpts) ([]harness.Result, error) {
 			if c2 == 0 || k2 != kind || (kind == "crash" && crashSig(e2) != detail) {
 				confirmed = false
 			}
+			if c2 == 0 {
+				for _, l := range strings.Split(o2, "\n") {
+					if strings.HasPrefix(l, "{") {
+						var r harness.Result
+						if json.Unmarshal([]byte(l), &r) == nil && r.ID == lastID {
+							clean = append(clean, r)
+						}
+					}
+				}
+			}
+		}
+		if !confirmed && len(clean) == 2 {
+			// Both isolated runs completed: the worker was stalled or killed from outside (a frozen or
+			// overloaded machine trips the watchdog, which measures wall-clock time without progress).
+			// That says nothing about the program: its isolated result stands, the incident is counted.
+			TransientIncidents.Add(1)
+			results = append(results, clean[0])
+			from = last + 1
+			continue
 		}
 		if !confirmed {
 			detail = "not reproducible: " + detail
